@@ -259,6 +259,56 @@ class IMMachine(FormatMachine):
         s.model["imgs"][iid][op["field"]] = copy.deepcopy(op["value"])
         return "ok"
 
+    def op_img_remove(self, op):
+        """a caller takes an image out of a cell through the public set (possibly leaving the cell empty)"""
+        s = self.slot(op)
+        iid = str(op.get("iid"))
+        if s is None or s.tainted or iid not in s.pool:
+            return "noop"
+        variant, arch = op["variant"], op["arch"]
+        cell = s.model["cells"].get(variant, {}).get(arch)
+        if cell is None or iid not in cell:
+            return "noop"
+        s.obj.images[variant][arch].discard(s.pool[iid])
+        cell.remove(iid)
+        if not cell:
+            CTX.probe("im.empty_cell_left_behind")
+        return "ok"
+
+    def op_img_inplace(self, op):
+        """in-place change of a mutable field (no attribute assignment happens): checksums.clear(),
+        checksums[k] = v, additional_variants.append(x), ..."""
+        s = self.slot(op)
+        iid = str(op.get("iid"))
+        if s is None or iid not in s.pool:
+            return "noop"
+        img, m = s.pool[iid], s.model["imgs"][iid]
+        how = op["how"]
+        if how in ("checksums.clear", "checksums.set", "checksums.del"):
+            if not isinstance(m.get("checksums"), dict) or not isinstance(img.checksums, dict):
+                return "noop"
+            if how == "checksums.clear":
+                img.checksums.clear()
+                m["checksums"] = {}
+            elif how == "checksums.set":
+                img.checksums[op["key"]] = op["value"]
+                m["checksums"][op["key"]] = op["value"]
+            else:
+                if op["key"] not in m["checksums"]:
+                    return "noop"
+                del img.checksums[op["key"]]
+                del m["checksums"][op["key"]]
+        else:
+            if not isinstance(m.get("additional_variants"), list) or not isinstance(img.additional_variants, list):
+                return "noop"
+            if how == "additional_variants.append":
+                img.additional_variants.append(op["value"])
+                m["additional_variants"].append(op["value"])
+            else:
+                del img.additional_variants[:]
+                m["additional_variants"] = []
+        return "ok"
+
     def _present(self, model):
         out = []
         for variant in sorted(model["cells"]):
@@ -316,7 +366,7 @@ class IMMachine(FormatMachine):
             if expect == "ok":
                 raise Violation("C09", "C09.valid_add_accepted", "valid-add-refused/%s/%s" % (why or "plain", exc_class(raised)),
                                 {"error": exc_class(raised), "msg": str(raised)[:160], "why": why, "version": model["version"]})
-            if expect == "fail" and not isinstance(raised, ValueError):
+            if expect == "fail" and not isinstance(raised, (ValueError, TypeError) if prop == "C10" else ValueError):
                 raise Violation(prop, "%s.refusal_is_valueerror" % prop, "exctype/%s/%s" % (why, exc_class(raised)),
                                 {"error": exc_class(raised), "why": why})
             if after != before:
@@ -404,9 +454,8 @@ class IMMachine(FormatMachine):
         if kind == "conflict" and rec:
             CTX.fault("F5.refused_api_call")
             if raised is None:
-                raise Violation("C16", "C16.conflicting_checksum_refused", "conflicting-add_checksum-accepted", {"type": ctype})
-            if not isinstance(raised, ValueError):
-                raise Violation("C16", "C16.conflicting_checksum_refused", "conflict-exctype/%s" % exc_class(raised), {})
+                # "never SILENTLY replaced": not raising is acceptable only if the recorded value was kept (checked above)
+                CTX.probe("c16.conflicting_add_checksum_ignored_without_error")
         if kind == "new" and value:
             if raised is not None:
                 raise Violation("C16", "C16.new_checksum_recorded", "new-checksum-refused/%s" % exc_class(raised), {})
